@@ -631,7 +631,7 @@ func (r *pwRun) fold(call *pwCall) *core.Violation {
 			at["apply"] = "failed"
 		}
 		v := pviol("ack_before_apply", fmt.Sprintf("write %d (shard group %d) was acknowledged by WriteToRaft on node %d, but %s", call.id, pa.sg, pa.node, what), at)
-		if r.known(v) == "" {
+		if v = r.over(v, r.phase); v != nil {
 			return v
 		}
 		// a listed finding: the write is treated as one without acknowledgement from here on, so
@@ -671,19 +671,36 @@ func (r *pwRun) crash(i int, op POp, rnd *core.Rand) *core.Violation {
 			lost = span
 		}
 		k = len(journal) - lost
-		// raft.meta is updated by runs of small writes (hard state: 2, snapshot: 4); cutting inside
-		// such a run is lib/raftlog's own crash-consistency subject (C17).  Unless the case asks
-		// for it the cut moves back to the start of the run.
+		// raft.meta is updated by groups of small writes (hard state: length at 512 + body;
+		// snapshot: index at 1024, term at 1032, length at 1040, body at 1044), possibly interleaved
+		// with writes of other goroutines.  A kill inside such a group is lib/raftlog's own
+		// crash-consistency subject (C17, known findings there).  Unless the case asks for it the
+		// cut moves back to the start of the group it would fall into.
 		isMeta := func(q int) bool {
 			return q >= 0 && q < len(journal) && journal[q].Kind == simfs.KWrite && strings.HasSuffix(journal[q].Path, "raft.meta")
 		}
-		if !r.cs.SplitMeta {
-			for k > n.visible && isMeta(k) && isMeta(k-1) {
-				k--
+		start, inGroup, afterLen := -1, false, false
+		for q := n.visible; q < k; q++ {
+			if !isMeta(q) {
+				continue
 			}
-			lost = len(journal) - k
-		} else if isMeta(k) && isMeta(k-1) {
-			r.metaTorn = true
+			e := journal[q]
+			switch {
+			case !inGroup && (e.Off == 1024 || e.Off == 512):
+				start, inGroup, afterLen = q, true, e.Off == 512 // at 512 the first write is the length itself
+			case inGroup && afterLen:
+				inGroup, afterLen = false, false // the body: the group is complete
+			case inGroup && len(e.Data) == 4 && e.Off == 1040:
+				afterLen = true
+			}
+		}
+		if inGroup {
+			if !r.cs.SplitMeta {
+				k = start
+				lost = len(journal) - k
+			} else {
+				r.metaTorn = true
+			}
 		}
 		if !r.cs.SplitMeta && isMeta(k) {
 			op.Torn = false
@@ -775,8 +792,8 @@ func (r *pwRun) restart(i int) *core.Violation {
 	n, err := r.c.startNode(x, dir)
 	if err != nil {
 		v := pviol("restart_failed", fmt.Sprintf("node %d does not start on its crash image (journal cut at: %s): %v", x, r.lastCut, err),
-			map[string]string{"victim": r.lastVictimRole, "cut_at": r.lastCut, "meta_torn": fmt.Sprint(r.metaTorn), "phase": r.phase, "window": r.windowStr()})
-		if r.known(v) == "" {
+			map[string]string{"victim": r.lastVictimRole, "cut_at": r.lastCut})
+		if v = r.over(v, r.phase); v != nil {
 			return v
 		}
 		// a listed finding: the run goes on with the node restarted on the image of its whole journal
@@ -817,17 +834,29 @@ func (r *pwRun) restart(i int) *core.Violation {
 
 // ---- closing phase ---------------------------------------------------------------------------
 
+// over returns nil if v is nil or a listed finding that may be stepped over.
+func (r *pwRun) over(v *core.Violation, phase string) *core.Violation {
+	if v == nil {
+		return nil
+	}
+	v.Attrs = mergeAttrsS(v.Attrs, r.runAttrs())
+	v.Attrs["phase"] = phase
+	if r.known(v) != "" {
+		return nil
+	}
+	return v
+}
+
 func (r *pwRun) closing() *core.Violation {
 	rnd := core.NewRand(r.cs.Seed ^ 0xc105)
 	r.phase = "closing"
 	r.opi = len(r.cs.Ops)
 	// faults stop: heal, restart, perfect network
-	if v := r.heal(); v != nil {
+	if v := r.over(r.heal(), "closing"); v != nil {
 		return v
 	}
 	if r.downNode >= 0 {
-		if v := r.restart(r.opi); v != nil {
-			v.Attrs = mergeAttrsS(v.Attrs, map[string]string{"phase": "closing"})
+		if v := r.over(r.restart(r.opi), "closing"); v != nil {
 			return v
 		}
 	}
@@ -842,8 +871,7 @@ func (r *pwRun) closing() *core.Violation {
 			r.pending = nil
 		} else {
 			r.pending = nil
-			if v := r.fold(call); v != nil {
-				v.Attrs = mergeAttrsS(v.Attrs, map[string]string{"phase": "closing"})
+			if v := r.over(r.fold(call), "closing"); v != nil {
 				return v
 			}
 		}
@@ -871,18 +899,25 @@ func (r *pwRun) closing() *core.Violation {
 		if call.finished() {
 			what = fmt.Sprintf("failed: %v", call.err)
 		}
-		return pviol("no_progress_after_heal", fmt.Sprintf("all three nodes are up and connected and no fault was injected for %v of virtual time, yet a write is %s (raft leader seen last: node %d term %d)",
-			pwBoundCommit, what, r.leaderHint, r.leaderTerm), map[string]string{"phase": "closing", "what": "probe_write"})
-	}
-	r.out.Stats["probe_commit_ms"] += int64(time.Since(t0) / time.Millisecond)
-	if v := r.fold(call); v != nil {
-		v.Attrs = mergeAttrsS(v.Attrs, map[string]string{"phase": "closing"})
-		return v
+		v := pviol("no_progress_after_heal", fmt.Sprintf("all three nodes are up and connected and no fault was injected for %v of virtual time, yet a write is %s (raft leader seen last: node %d term %d)",
+			pwBoundCommit, what, r.leaderHint, r.leaderTerm), map[string]string{"what": "probe_write"})
+		if v = r.over(v, "closing"); v != nil {
+			return v
+		}
+	} else {
+		r.out.Stats["probe_commit_ms"] += int64(time.Since(t0) / time.Millisecond)
+		if v := r.over(r.fold(call), "closing"); v != nil {
+			return v
+		}
 	}
 	for _, c := range r.stuck {
 		if !c.finished() {
-			return pviol("no_progress_after_heal", fmt.Sprintf("client write %d (issued at step %d) has had no outcome for more than %v", c.id, c.issuedOp, pwCallWait),
-				map[string]string{"phase": "closing", "what": "stuck_call"})
+			v := pviol("no_progress_after_heal", fmt.Sprintf("client write %d (issued at step %d) has had no outcome for more than %v", c.id, c.issuedOp, pwCallWait),
+				map[string]string{"what": "stuck_call"})
+			if v = r.over(v, "closing"); v != nil {
+				return v
+			}
+			break
 		}
 	}
 	// (3b) within B' every live replica equals the model
@@ -897,11 +932,13 @@ func (r *pwRun) closing() *core.Violation {
 			return v
 		}
 	}
-	if last != nil {
-		last.Attrs = mergeAttrsS(last.Attrs, map[string]string{"phase": "closing"})
-		return last
+	if v := r.over(last, "closing"); v != nil {
+		return v
 	}
-	r.out.Stats["converge_ms"] += int64(time.Since(t1) / time.Millisecond)
+	if last == nil {
+		r.out.Stats["converge_ms"] += int64(time.Since(t1) / time.Millisecond)
+		r.out.Stats["converged"]++
+	}
 	r.window = map[string]bool{}
 	// a later, different minority failure loses nothing
 	r.phase = "second_failure"
@@ -909,30 +946,26 @@ func (r *pwRun) closing() *core.Violation {
 	if sel < 0 {
 		sel = rnd.Intn(pwNNodes)
 	}
-	if v := r.crash(r.opi, POp{K: "crash", Sel: fmt.Sprintf("n%d", sel)}, rnd); v != nil {
+	if v := r.over(r.crash(r.opi, POp{K: "crash", Sel: fmt.Sprintf("n%d", sel)}, rnd), "second_failure"); v != nil {
 		return v
 	}
-	if v := r.checkMaster("second_failure_at_once"); v != nil {
-		v.Attrs = mergeAttrsS(v.Attrs, map[string]string{"phase": "second_failure"})
+	if v := r.over(r.checkMaster("second_failure_at_once"), "second_failure"); v != nil {
 		return v
 	}
 	if v := r.runFor(20*time.Second, rnd, false); v != nil {
 		return v
 	}
-	if v := r.checkMaster("second_failure"); v != nil {
-		v.Attrs = mergeAttrsS(v.Attrs, map[string]string{"phase": "second_failure"})
+	if v := r.over(r.checkMaster("second_failure"), "second_failure"); v != nil {
 		return v
 	}
 	// and the store that rejoins catches up
-	if v := r.restart(r.opi); v != nil {
-		v.Attrs = mergeAttrsS(v.Attrs, map[string]string{"phase": "second_failure"})
+	if v := r.over(r.restart(r.opi), "second_failure"); v != nil {
 		return v
 	}
 	if v := r.runFor(20*time.Second, rnd, false); v != nil {
 		return v
 	}
-	if v := r.checkAllReplicas("rejoined"); v != nil {
-		v.Attrs = mergeAttrsS(v.Attrs, map[string]string{"phase": "second_failure"})
+	if v := r.over(r.checkAllReplicas("rejoined"), "second_failure"); v != nil {
 		return v
 	}
 	return nil
